@@ -25,6 +25,11 @@ def rand_format(rng):
     mh = (2 if cdf == 2 else 1) * (2 if (ss == 1 or pcm == 1) else 1)
     w = mw * rng.choice([1, 2, 3, 4, 5, 8, 9, 12, 19, 40])
     h = mh * rng.choice([1, 2, 3, 4, 7, 10])
+    if rng.random() < 0.12:
+        # frames LARGER than the (128-line, aspect-corrected) sprite, with non-square pixels: the sprite is then neither
+        # clipped nor square
+        w, h = mw * rng.choice([66, 88, 100, 176]), mh * rng.choice([33, 36, 40])
+        vp["pixel_aspect_ratio_numer"], vp["pixel_aspect_ratio_denom"] = rng.choice([(12, 11), (10, 11), (4, 3), (1, 1), (2, 3)])
     d = rng.choice([8, 8, 10, 12, 16, 2, 1])
     vp.update(frame_width=w, frame_height=h, clean_width=w, clean_height=h, left_offset=0, top_offset=0,
               color_diff_format_index=cdf, source_sampling=ss, top_field_first=rng.random() < 0.5)
